@@ -48,7 +48,6 @@ ASSUMPTIONS = [
     "bind names use only the characters listed in SQLCompiler.bindname_escape_characters plus word characters, and are collision-free after escaping (each name carries its index)",
     "real PostgreSQL/MySQL/MariaDB/MSSQL drivers are observed at cursor.execute through a recording DBAPI (no server); Oracle has no importable driver and is not covered",
     "format/pyformat are executed live through a sqlite3.Cursor subclass that applies the %-grammar and rebinds positionally (trusted shim)",
-    "known finding excluded by construction: literal_execute bind whose name needs escaping (KeyError in _process_parameters_for_postcompile); pinned replay findings/C04/le_escaped_name.json",
 ]
 
 PARAMSTYLES = ["qmark", "format", "pyformat", "named", "numeric", "numeric_dollar"]
@@ -176,9 +175,7 @@ def build(prog, s, caps, embed=False, pinned=False, ctx=None):
             return made[k]
         spec = binds[k]
         le = bool(spec.get("le"))
-        name = bname(spec, k, allow_escape=not le or pinned)
-        if le and spec.get("n") is not None and NAMES[spec["n"] % len(NAMES)] not in PLAIN and not pinned and ctx is not None and s == 0 and not embed:
-            ctx.exclude("literal_execute bind with a name needing escaping (known finding C04/literal-execute-escaped-name)")
+        name = bname(spec, k, allow_escape=True)  # literal_execute + escaped name repaired in /repo (ef607b7): generated again
         v = bval(spec["t"], k, s)
         out.exp_tags[k] = v
         if name is not None and any(ch in name for ch in "%():.[] "):
@@ -258,9 +255,7 @@ def build(prog, s, caps, embed=False, pinned=False, ctx=None):
         else:
             out.features.add("expanding-empty")
         le = bool(spec.get("le"))
-        name = bname(spec, 20 + l, allow_escape=not le or pinned)
-        if le and spec.get("n") is not None and NAMES[spec["n"] % len(NAMES)] not in PLAIN and not pinned and ctx is not None and s == 0 and not embed and ("L", l) not in made:
-            ctx.exclude("literal_execute bind with a name needing escaping (known finding C04/literal-execute-escaped-name)")
+        name = bname(spec, 20 + l, allow_escape=True)
         if name is not None and any(ch in name for ch in "%():.[] "):
             out.features.add("escaped-name")
         if spec["t"] == "tup":
